@@ -6,6 +6,7 @@
    functions.  Statements only; proofs are in Text/TextWriterP.v. *)
 From Coq Require Import String List NArith ZArith Bool.
 From IonV Require Import Base.Wire Data.Ion Bin.BinWriter Text.TextOut Text.TextWriter Text.TextWriterP.
+From IonV Require Import Text.SpecText Text.TextRoundtrip Text.TextRoundtripP.
 Import ListNotations.
 Open Scope N_scope.
 
@@ -101,6 +102,41 @@ Theorem tx_quoted_symbol : forall x : text,
   symbol_needs_quoting x = true ->
   concat (write_symbol_from_string x) = [39] ++ concat (escaped_symbol x) ++ [39].
 Proof. exact write_symbol_from_string_quoted. Qed.
+
+(* ---- C04 / C12 (text), whole streams, on a finite universe: the bytes the writer model produces for the
+   calls that write a value are read back by the SPECIFICATION decoder (Text/SpecText.tdecode) as exactly that
+   value.  [universe] (Text/TextRoundtrip.v, 3067 values): every typed null, bools, the integers -1100..1100 and
+   64-bit / big edges, nan +inf -inf 0e+0 -0e+0, every one-character string and symbol over U+0000..U+007F,
+   keywords, $n texts, operators, UTF-8, every one-byte clob, blobs up to 770 bytes, lists / sexps / structs of
+   those two levels deep with field names and annotations that need quoting.  All four option settings.
+   Proved by kernel computation, not by induction: it is a statement about these values only. --------------- *)
+Theorem tw_tdecode_universe : forall (pretty quiet : bool) (v : value),
+  In v universe ->
+  exists w rs got,
+    tw_drive no_formats (new_text_writer None pretty quiet) (calls_of_stream [v]) = Ok (w, rs) /\
+    forallb (fun b => b) rs = true /\
+    tdecode (sink_bytes (tw_out w)) = Some got /\
+    show_values got = show_values [v].
+Proof. exact rt_universe_spec. Qed.
+
+(* the whole universe written as ONE stream with a Finish after every 50 values (compact and pretty):
+   separators between top-level values and batches do not disturb the reading *)
+Theorem tw_tdecode_batches : forall pretty : bool,
+  exists w rs got,
+    tw_drive no_formats (new_text_writer None pretty false)
+             (flat_map calls_of_stream (chunks50 (length universe) universe)) = Ok (w, rs) /\
+    forallb (fun b => b) rs = true /\
+    tdecode (sink_bytes (tw_out w)) = Some got /\
+    show_values got = show_values universe.
+Proof. exact rt_batches_spec. Qed.
+
+Example universe_size : length universe = 3067%nat.
+Proof. vm_compute. reflexivity. Qed.
+Example universe_member :
+  existsb (fun v => list_eqb (show_values [v]) (show_values
+    [VAnn [SymText (s "x")] (VList [VAnn [SymText (s "y")] (VSexp [VAnn [SymText (s "z")]
+        (VStruct [(SymText (s "w"), VAnn [SymText (s "v")] (VList []))])])])])) universe = true.
+Proof. vm_compute. reflexivity. Qed.
 
 (* ---- the statements are about non-trivial runs ------------------------------------------------ *)
 Definition F0 : formats :=
